@@ -191,7 +191,7 @@ def _perform_kw(at, call):
             return ac.set_target_temperature(**_kw(A, "set_target_temperature", [args[0]]))
         if method == "set_quick_timer_duration":
             return ac.set_quick_timer(**_kw(A, "set_quick_timer", [
-                api.AcTimerType[args[0]], datetime.timedelta(seconds=args[1])]))
+                api.AcTimerType[args[0]], _mkduration(args[1])]))
         if method == "set_quick_timer_time":
             return ac.set_quick_timer(**_kw(A, "set_quick_timer", [
                 api.AcTimerType[args[0]], _mktime(args)]))
@@ -206,11 +206,27 @@ def _perform_kw(at, call):
     return z.set_damper_percentage(**_kw(Z, "set_damper_percentage", [args[0]]))
 
 
+class _AppTime(datetime.time):
+    """What an application's date library hands out: a datetime.time all the same."""
+
+
+class _AppDuration(datetime.timedelta):
+    """Likewise for durations (pendulum.Duration, pandas.Timedelta, ...)."""
+
+
+def _mkduration(secs):
+    if int(secs) % 7 == 0:
+        return _AppDuration(seconds=secs)
+    return datetime.timedelta(seconds=secs)
+
+
 def _mktime(args):
     """A time of day: (type, hour, minute[, (second, microsecond, utc offset in minutes or None,
     fold)]). The console keeps wall-clock hours and minutes; what is requested is the hour and
     the minute of the value whatever else the time object carries."""
     if len(args) < 4 or args[3] is None:
+        if (args[1] * 60 + args[2]) % 5 == 0:
+            return _AppTime(args[1], args[2])
         return datetime.time(args[1], args[2])
     sec, usec, off, fold = args[3]
     tz = None if off is None else datetime.timezone(datetime.timedelta(minutes=off))
@@ -234,7 +250,7 @@ def _perform_pos(at, call):
             return ac.set_target_temperature(args[0])
         if method == "set_quick_timer_duration":
             return ac.set_quick_timer(api.AcTimerType[args[0]],
-                                      datetime.timedelta(seconds=args[1]))
+                                      _mkduration(args[1]))
         if method == "set_quick_timer_time":
             return ac.set_quick_timer(api.AcTimerType[args[0]], _mktime(args))
         if method == "clear_quick_timer":
